@@ -435,6 +435,22 @@ def f_dynout(target="dyn1", consumer="none", sub=0):
     }
 
 
+def f_nested(deep=1, v=1, p_need="OPTIONAL", src="src", pcopy=0):
+    """Three creation levels: the root plan defines the optional producer P and runs sub.py, sub.py
+    runs deep.py, deep.py defines the only consumer of P's output. Dropping deep.py from sub.py
+    makes P unneeded although the plan that owns P does not run again."""
+    pstep = tr("P", ["src.txt"], ["p.txt"], need=p_need)
+    if pcopy:
+        # P copies its input, so a bad source ("!fail") makes the consumer C fail
+        pstep = ["step", "cp src.txt p.txt", {"inp": ["src.txt"], "out": ["p.txt"], "need": p_need}]
+    return {
+        "src.txt": f"{src}\n",
+        "plan.py": script([["static", "src.txt", "sub.py", "deep.py"], pstep, ["plan", "./sub.py"]], v=v),
+        "sub.py": script([["plan", "./deep.py"]] if deep else []),
+        "deep.py": script([tr("C", ["p.txt"], ["c.txt"])]),
+    }
+
+
 DOMAINS = {
     "f_chain": {"a_tag": (1, 2), "b": (1, 0), "b_need": ("DEFAULT", "OPTIONAL"),
                 "b_out": ("b.txt", "b2.txt"), "c": (1, 0), "src": ("x", "y"), "src_exists": (1, 0)},
@@ -449,6 +465,7 @@ DOMAINS = {
     "f_redefine": {"inp": (("src.txt",), (), ("src.txt", "src2.txt")), "out": (("r.txt",), ("r.txt", "r2.txt"))},
     "f_optional": {"u": (1, 0), "o2_need": ("OPTIONAL", "DEFAULT"), "src": ("x", "y")},
     "f_selfprod": {"sub": (1, 0)},
+    "f_nested": {"deep": (1, 0), "v": (1, 2), "p_need": ("OPTIONAL", "DEFAULT")},
     "f_dynout": {"target": ("dyn1", "dyn2"), "consumer": ("none", "dyn1", "dyn2"), "sub": (0, 1)},
     "f_hold": {"nesting": (2, 1), "v": (1, 2)},
 }
